@@ -417,8 +417,10 @@ class SimWorld(object):
                 q, timeout = p.pending[1], p.pending[2]
                 if q.sem > 0:
                     out.append(((p.pid, "put"), cat, p, "go"))
-                elif timeout is not None:
-                    out.append(((p.pid, "put-timeout"), "timeout", p, "timeout"))
+                else:
+                    self.put_blocked += 1
+                    if timeout is not None:
+                        out.append(((p.pid, "put-timeout"), "timeout", p, "timeout"))
             elif kind == "join":
                 tgt, timeout = p.pending[1], p.pending[2]
                 if tgt.exited:
